@@ -188,6 +188,7 @@ func (f changeFinder) walkStruct(from, to *value) bool {
 	// the code so we can treat fields as siblings
 
 	starts := make([]token.Pos, from.Len())
+	absent := make([]bool, from.Len()) // tokens that are not there
 	lastEnd := f.Pos
 	for i, c := range from.Children {
 		switch {
@@ -213,6 +214,7 @@ func (f changeFinder) walkStruct(from, to *value) bool {
 				// around a single result): like other fields without
 				// a position it begins where the last node ended.
 				starts[i] = lastEnd
+				absent[i] = true
 			}
 		default:
 			// Otherwise the start position is the end position of the last
@@ -231,8 +233,12 @@ func (f changeFinder) walkStruct(from, to *value) bool {
 		}
 
 		// The field that preceds this field should use this field's start
-		// position as its end position if it's not a Node.
-		nextPos = starts[i]
+		// position as its end position if it's not a Node. A token that
+		// is not there takes no room: what precedes it extends to
+		// whatever follows it.
+		if !absent[i] {
+			nextPos = starts[i]
+		}
 	}
 
 	equal := true
